@@ -166,7 +166,10 @@ ToRender(n, cf) ==
                [] nm = "br" -> << [kind |-> "Break", sty |-> sty] >>
                [] nm = "table" ->
                     LET bodies == SelectSeq(cs, LAMBDA x : x.kind = "TableBody")
-                        rows == Concat([i \in 1..Len(bodies) |-> bodies[i].c])
+                        \* the section elements are dissolved; their colours go to the rows that set none
+                        Down(row, bsty) == [row EXCEPT !.sty = [@ EXCEPT !.fg = IF @ = <<>> THEN bsty.fg ELSE @,
+                                                                          !.bg = IF @ = <<>> THEN bsty.bg ELSE @]]
+                        rows == Concat([i \in 1..Len(bodies) |-> [j \in 1..Len(bodies[i].c) |-> Down(bodies[i].c[j], StyOf(bodies[i]))]])
                     IN IF rows = <<>> THEN <<>>
                        ELSE LET rm == Remap(rows) IN << [kind |-> "Table", sty |-> sty, c |-> rm, ncols |-> NumCols(rm)] >>
                [] nm \in {"thead", "tbody"} ->
